@@ -428,6 +428,11 @@ def rule_intsig(facts):
 
 
 
+def _qsign(facts):
+    from .c13 import rule_qsign
+    return rule_qsign(facts, rule="C12-QSIGN")
+
+
 def run(ctx):
     facts = ctx["facts"]
     consts = {c["id"]: c for c in facts.records("const")}
@@ -482,7 +487,7 @@ def run(ctx):
     # An operand that keeps a different scale is added as if it had the common scale: a silently wrong sum.
     deccast = rule_elide(facts, rule="C12-DECCAST", only=lambda fid: "::functions::" in fid, floor=6)
     return [r, rule_errpath(facts, db, int_rows), rule_errstate(facts), rule_decfit(facts), deccast, rule_tablefn(facts), rule_narrowing(facts, db, int_rows),
-            rule_tablefn(facts, "C12-CMPBIND", "glaredb_core::functions::scalar::builtin::comparison::", "the comparison operators' bind and kernels", 1), rule_intsig(facts)]
+            rule_tablefn(facts, "C12-CMPBIND", "glaredb_core::functions::scalar::builtin::comparison::", "the comparison operators' bind and kernels", 1), rule_intsig(facts), _qsign(facts)]
 
 
 CLAIM = {
